@@ -633,6 +633,7 @@ theorem putOp_opOK {f n : Nat} {op : Op} (hf : f < n) (h : PutOp f op) : OpOK n 
   | sync => cases h
   | close g => cases h
   | setPipelined g b => cases h
+  | deliver k => cases h
 
 theorem body_run {f : Nat} : ∀ (body : List Op) (s : St) (acc : Bytes), Good none none s → f < s.files.length →
     0 < s.maxReq → PutInv f acc acc.length false s → (∀ op ∈ body, PutOp f op) →
@@ -672,6 +673,7 @@ theorem body_run {f : Nat} : ∀ (body : List Op) (s : St) (acc : Bytes), Good n
     | sync => cases hop
     | close g => cases hop
     | setPipelined g b => cases hop
+    | deliver k => cases hop
 
 theorem pend_nil_of {f : Nat} {w : List Slot} (h : ∀ sl ∈ w, ∀ off d, sl.kind ≠ .write f off d) : pend f w = [] := by
   induction w with
